@@ -164,13 +164,14 @@ func init() {
 
 // FieldNames lists the spec-level field names, in a fixed order.
 // PX/PY are the nested paths P.X / P.Y, E is Emb.E; Pn is 1 when P is nil.
-var FieldNames = []string{"K", "S", "A", "U", "F", "N", "T", "E", "PX", "PY", "Z", "V", "W", "O", "Pn"}
+var FieldNames = []string{"K", "S", "A", "U", "F", "N", "T", "E", "PX", "PY", "Z", "V", "W", "O", "R", "Pn"}
 
 // Path gives the sod field path of a spec-level field name.
-var Path = map[string]string{"K": "K", "S": "S", "A": "A", "U": "U", "F": "F", "N": "N", "T": "T", "E": "Emb.E", "PX": "P.X", "PY": "P.Y", "Z": "Z", "V": "V", "W": "W", "O": "O"}
+var Path = map[string]string{"K": "K", "S": "S", "A": "A", "U": "U", "F": "F", "N": "N", "T": "T", "E": "Emb.E", "PX": "P.X", "PY": "P.Y", "Z": "Z", "V": "V", "W": "W", "O": "O", "R": "R"}
 
 // CaseKind: "" | "lower" | "upper"
-var CaseKind = map[string]string{"S": "lower", "W": "lower", "N": "upper", "PY": "upper"}
+// (R only carries its constraint under custom schema 7; it is nil, i.e. canonical, everywhere else)
+var CaseKind = map[string]string{"S": "lower", "W": "lower", "N": "upper", "PY": "upper", "R": "upper"}
 
 // UniSize returns the number of ranks (plain) or classes (case fields).
 func UniSize(f string) int {
@@ -197,7 +198,7 @@ func UniSize(f string) int {
 		return len(uniZ)
 	case "S", "W":
 		return len(caseLower.canon)
-	case "N", "PY":
+	case "N", "PY", "R":
 		return len(caseUpper.canon)
 	case "Pn":
 		return 2
@@ -227,7 +228,7 @@ func zeroCode(f string) int {
 		return idxInt(uniV, 0)
 	case "S", "W":
 		return caseLower.encode("")
-	case "N", "PY":
+	case "N", "PY", "R":
 		return caseUpper.encode("")
 	case "Z", "O":
 		return 0
